@@ -306,7 +306,10 @@ static void gen_topology(Scen& s, Rng& r, int max_nodes) {
         uint32_t mx = 0; for (uint32_t v : ein[i * 2]) mx = std::max(mx, v);
         if (n.kind == K_SEQ && (has_cont || mx > 1 || seqs > 0)) n.kind = K_Q;
         if (n.kind == K_SEQ) seqs++;
-        if (n.kind == K_JOIN && n.policy == JP_KEY && mx > 1) n.policy = r.chance(1, 2) ? JP_QUEUEING : JP_RESERVING;
+        // key_matching ports reject a key that is still pending on the port (senders that do not buffer then drop it, by contract), so a key may
+        // arrive only once per round. continue_nodes emit k mod M with k running on across rounds: their ids collide with other arrivals in a
+        // later round even when round 0 is collision-free, and this decision is taken from round 0 only - no key policy next to them.
+        if (n.kind == K_JOIN && n.policy == JP_KEY && (mx > 1 || has_cont)) n.policy = r.chance(1, 2) ? JP_QUEUEING : JP_RESERVING;
     }
 }
 
